@@ -203,6 +203,8 @@ fn reproducer(sig: &str) -> Option<(HostKind, Universe, &'static str)> {
         "registry-keeps-notifications" => (HostKind::BridgeBincode, uni(r#"[{"Notify":0}]"#, "[]"), "[registry-keeps-notifications]"),
         // a task that takes one item of a stream and ends
         "registry-keeps-ended-streams" => (HostKind::BridgeBincode, uni(r#"[{"Async":[0,[{"StreamLoop":[1,[{"Emit":1}]]}]]}]"#, r#"[{"Resolve":0},{"Resolve":0}]"#), "[registry-keeps-ended-streams]"),
+        // a legacy-API task awaiting one request, which the shell drops
+        "legacy-task-kept-after-request-dropped" => (HostKind::Legacy, uni(r#"[{"Async":[0,["Await"]]}]"#, r#"[{"Drop":0}]"#), "legacy capability API"),
         _ => return None,
     })
 }
@@ -313,6 +315,7 @@ fn main() {
     };
     let known = vkit::known_findings(sp.prop);
     let tolerate_retaining = vkit::is_known(&known, "evict-retained-waker") || vkit::is_known(&vkit::known_findings("C07"), "evict-retained-waker");
+    let tolerate_legacy_kept = vkit::is_known(&vkit::known_findings("C13"), "legacy-task-kept-after-request-dropped");
     let stats = Stats::new();
     let tolerate: Vec<String> = known.iter().map(|k| k.sig.clone()).collect();
     let driver_errors = std::sync::atomic::AtomicU64::new(0);
@@ -339,7 +342,7 @@ fn main() {
             let _ = b;
             return Ok(());
         }
-        let info = match run_case(&c.universe, &CaseCfg { host: c.host, tolerate_retaining, byte_late_resolves: sp.prop == "C02", release_checks: sp.prop == "C13", tolerate: tolerate.clone() }) {
+        let info = match run_case(&c.universe, &CaseCfg { host: c.host, tolerate_retaining, byte_late_resolves: sp.prop == "C02", release_checks: sp.prop == "C13", tolerate: tolerate.clone(), tolerate_legacy_kept }) {
             Ok(info) => info,
             Err(fail) => {
                 // every clause that failed in the first failing call; report the first one this property owns
@@ -362,6 +365,9 @@ fn main() {
         stats.case(&(c.host, &c.universe, false), nt, &refs);
         if info.used_retaining_exemption > 0 {
             stats.excluded_known("evict-retained-waker");
+        }
+        if info.used_legacy_exemption > 0 {
+            stats.excluded_known("legacy-task-kept-after-request-dropped");
         }
         for t in &info.tolerated {
             stats.excluded_known(t);
@@ -386,7 +392,7 @@ fn main() {
             // known findings of this property: print the line iff the reproducer still shows it
             for k in &known {
                 if let Some((host, universe, needle)) = reproducer(&k.sig) {
-                    let strict = CaseCfg { host, tolerate_retaining: false, byte_late_resolves: false, release_checks: sp.prop == "C13", tolerate: vec![] };
+                    let strict = CaseCfg { host, tolerate_retaining: false, byte_late_resolves: false, release_checks: sp.prop == "C13", tolerate: vec![], tolerate_legacy_kept: false };
                     if matches!(run_case(&universe, &strict), Err(e) if e.msgs.iter().any(|w| w.contains(needle))) {
                         vkit::print_known_finding(k);
                     }
